@@ -271,8 +271,8 @@ def clenshaw_qbfs_der(cs, usq, j=1, alphas=None):
     # seed with j=0 (S, not its derivative)
     clenshaw_qbfs(cs, usq, alphas[0])
     for jj in range(1, j+1):
-        alphas[jj][M-j] = -4 * jj * alphas[jj-1][M-jj+1]
-        for n in range(M-2, -1, -1):
+        alphas[jj][M-jj] = -4 * jj * alphas[jj-1][M-jj+1]
+        for n in range(M-jj-1, -1, -1):
             # this is hideous, and just expresses:
             # for the jth derivative, alpha_n is 2 - 4x * a_n+1 - a_n+2 - 4 j a_n+1^j-1
             alphas[jj][n] = prefix * alphas[jj][n+1] - alphas[jj][n+2] - 4 * jj * alphas[jj-1][n+1]
@@ -1072,7 +1072,7 @@ def clenshaw_q2d_der(cns, m, usq, j=1, alphas=None):
     # return alphas
     for jj in range(1, j+1):
         _, b, _ = abc_q2d_clenshaw(N-jj, m)
-        alphas[jj][N-jj] = j * b * alphas[jj-1][N-jj+1]
+        alphas[jj][N-jj] = jj * b * alphas[jj-1][N-jj+1]
         for n in range(N-jj-1, -1, -1):
             a, b, _ = abc_q2d_clenshaw(n, m)
             _, _, c = abc_q2d_clenshaw(n+1, m)
